@@ -6,6 +6,7 @@ import (
 	"fmt"
 	"math/rand"
 	"reflect"
+	"runtime"
 	"sort"
 	"strings"
 	"time"
@@ -479,6 +480,25 @@ func c05Run(c *core.Ctx, b core.Batch) {
 			return
 		}
 		cfgKey := fmt.Sprintf("%d/%d", p.Shard, cfgi)
+		// meanwhile another goroutine looks resources up (as Service.Resource, With and store
+		// callbacks on foreign goroutines do): lookups do not disturb the dispatch of requests
+		lookStop, lookDone := make(chan struct{}), make(chan struct{})
+		go func() {
+			defer close(lookDone)
+			names := []string{"test.kkkkk.zzzzz.yy.qq", "test.a.kkkkk", "test.kkkkk", "test.a.x.kkkkk.zzzzz", "other.kkkkk"}
+			for n := 0; ; n++ {
+				select {
+				case <-lookStop:
+					return
+				default:
+				}
+				try(func() { rg.S.GetHandler(names[n%len(names)]) })
+				if n%64 == 0 {
+					runtime.Gosched()
+				}
+			}
+		}()
+		stopLook := func() { close(lookStop); <-lookDone; c.Obs("configs_with_concurrent_lookups", 1) }
 		one := func(subject string, payload []byte, sent *c05Sent, malformed bool) bool {
 			st.snaps = st.snaps[:0]
 			st.outcome = c05Outcomes[r.Intn(len(c05Outcomes))]
@@ -658,6 +678,7 @@ func c05Run(c *core.Ctx, b core.Batch) {
 				c.Sample(map[string]interface{}{"subjects": subjects, "payload_all_fields": string(pl)})
 			}
 		}
+		stopLook()
 		rg.stop()
 		if !ok {
 			return
